@@ -260,14 +260,27 @@ def run_cli(cli, world, cfg, args, text):
         argv.append("-a")
     if args["wakati"]:
         argv.append("-w")
-    argv.append("--split-sentences=" + ("yes" if args["split"] else "no"))
-    p = subprocess.run(argv, input=text.encode("utf-8"), stdout=subprocess.PIPE, stderr=subprocess.PIPE, timeout=120, env=dict(os.environ, RUST_BACKTRACE="0"))
+    argv.append("--split-sentences=" + ("only" if args.get("only") else "yes" if args["split"] else "no"))
+    console = b""
+    if args.get("files"):
+        # the input as a file argument, the output to -o FILE: the same bytes as through the standard streams, nothing on stdout
+        ip, op = os.path.join(W, "cli_in.txt"), os.path.join(W, "cli_out.txt")
+        with open(ip, "wb") as f:
+            f.write(text.encode("utf-8"))
+        if os.path.exists(op):
+            os.remove(op)
+        p = subprocess.run(argv + ["-o", op, ip], stdin=subprocess.DEVNULL, stdout=subprocess.PIPE, stderr=subprocess.PIPE, timeout=120, env=dict(os.environ, RUST_BACKTRACE="0"))
+        console = p.stdout
+        data = open(op, "rb").read() if os.path.exists(op) else b""
+    else:
+        p = subprocess.run(argv, input=text.encode("utf-8"), stdout=subprocess.PIPE, stderr=subprocess.PIPE, timeout=120, env=dict(os.environ, RUST_BACKTRACE="0"))
+        data = p.stdout
     try:
-        so = [ord(ch) for ch in p.stdout.decode("utf-8")]
+        so = [ord(ch) for ch in data.decode("utf-8")]
         ok = True
     except UnicodeDecodeError:
-        so, ok = list(p.stdout), False
-    return {"exit": p.returncode if ok else 900, "stdout": so, "stderr": p.stderr.decode("utf-8", "replace")[-300:]}
+        so, ok = list(data), False
+    return {"exit": p.returncode if ok else 900, "stdout": so, "console": list(console), "stderr": p.stderr.decode("utf-8", "replace")[-300:]}
 
 
 def model_cli_inputs(out, tier):
@@ -275,7 +288,7 @@ def model_cli_inputs(out, tier):
     n = 4 if tier == "quick" else 6
     cfg = os.path.join(C.WORK, "tlc", f"MC_Cli_{tier}.cfg")
     with open(cfg, "w") as f:
-        f.write(f"SPECIFICATION MSpec\nCONSTANTS\n  MaxLen = {n}\nINVARIANTS NoTerminatorAnalysed MachineIsRun BlankLineEmpty Emit\nCHECK_DEADLOCK FALSE\n")
+        f.write(f"SPECIFICATION MSpec\nCONSTANTS\n  MaxLen = {n}\nINVARIANTS NoTerminatorAnalysed MachineIsRun BlankLineEmpty OnlyKeepsText Emit\nCHECK_DEADLOCK FALSE\n")
     lines = []
     r = C.tlc_mc("MC_Cli", cfg, workers=8, sink=lines.append, timeout=40000)
     if r.violated:
@@ -301,10 +314,12 @@ def cli_half(out, tier, world, cli, inputs=None, label="cli", only=None):
         inputs = gen_cli_inputs(rng, 40 if tier == "quick" else 600) + model_cli_inputs(out, tier)
     runs = []
     for i, text in enumerate(inputs):
-        combos = [(m, a, w, sp) for m in (0, 1, 2) for a in (False, True) for w in (False, True) for sp in (True, False) if not (a and w)]
-        picks = combos if tier == "thorough" else rng.sample(combos, 3)
-        for (m, a, w, sp) in picks:
-            runs.append({"cfg": ["default", "full", "regex"][i % 3], "args": {"mode": m, "all": a, "wakati": w, "split": sp}, "text": text})
+        combos = [(m, a, w, sp, False) for m in (0, 1, 2) for a in (False, True) for w in (False, True) for sp in (True, False) if not (a and w)]
+        combos += [(2, False, False, True, True), (0, False, True, True, True)]      # --split-sentences=only (mode and format play no part)
+        picks = combos if tier == "thorough" else rng.sample(combos, 3) + ([combos[-1 - (i % 2)]] if i % 4 == 0 else [])
+        for j, (m, a, w, sp, on) in enumerate(picks):
+            runs.append({"cfg": ["default", "full", "regex"][i % 3], "text": text,
+                         "args": {"mode": m, "all": a, "wakati": w, "split": sp, "only": on, "files": (i + j) % 5 == 0}})
     if only is not None:
         runs = [{"cfg": only[0], "args": only[1], "text": inputs[0]}]
     events = []
@@ -335,7 +350,10 @@ def cli_half(out, tier, world, cli, inputs=None, label="cli", only=None):
                     if (t, m) in tok_of:
                         events.append(dict(tok_of[(t, m)], run=rid, sents=[]))
             res = run_cli(cli, world, cfg, r["args"], r["text"])
-            events.append({"ev": "cli", "run": rid, "cfg": cfg, "args": r["args"], "input": cps(r["text"]), "stdout": res["stdout"], "exit": res["exit"], "stderr": res["stderr"]})
+            r["args"].setdefault("only", False)
+            r["args"].setdefault("files", False)          # replay files written before these options existed
+            events.append({"ev": "cli", "run": rid, "cfg": cfg, "args": r["args"], "input": cps(r["text"]), "stdout": res["stdout"], "console": res["console"],
+                           "exit": res["exit"], "stderr": res["stderr"]})
     tp = os.path.join(C.WORK, "traces", f"c19_{label}_{tier}.ndjson")
     C.write_ndjson(tp, events)
     if tier == "thorough":
@@ -435,6 +453,8 @@ def run(tier, replay=None):
         "cli: a blank CRLF line": any(txt(e).startswith("\r\n") or "\n\r\n" in txt(e) for e in clis),
         "cli: no final newline": any(txt(e) and not txt(e).endswith("\n") for e in clis),
         "cli: -w": any(e["args"]["wakati"] for e in clis), "cli: -a": any(e["args"]["all"] for e in clis),
+        "cli: --split-sentences=only with two sentences": any(e["args"]["only"] and "。京都" in txt(e) for e in clis),
+        "cli: file input and -o": any(e["args"]["files"] and e["stdout"] for e in clis),
         "cli: a joined numeral": any("1,234" in txt(e) for e in clis),
     })
     missing = [k for k, v in need.items() if not v]
